@@ -10,15 +10,54 @@ open BloomVerif.Pipeline
 theorem stop_refuses (c : Cfg) (s : St) (r : Req) (h : s.stopped = true) : step c s (.accept r) = none := by
   simp [step, h]
 
+/-- Witness state for the non-vacuity examples: Stop was called on a running engine with one batch buffered and
+    one still in the ingest channel (room left in the channel). -/
+private def nv_stopped : St :=
+  (run ⟨4, 3⟩ init [.start, .accept ⟨1, .rows 1⟩, .accept ⟨2, .force⟩, .actorRecv 1, .stopBegin, .stopCall]).getD init
+
+/-- non-vacuity: the premise of `stop_refuses` holds in that state (six real events); a new batch is refused
+    although the ingest channel has room -/
+example : run ⟨4, 3⟩ init [.start, .accept ⟨1, .rows 1⟩, .accept ⟨2, .force⟩, .actorRecv 1, .stopBegin, .stopCall]
+      = some nv_stopped ∧ nv_stopped.stopped = true ∧ nv_stopped.ingestQ.length = 1 ∧ nv_stopped.buffered = [1] ∧
+    step ⟨4, 3⟩ nv_stopped (.accept ⟨3, .rows 1⟩) = none :=
+  ⟨rfl, rfl, rfl, rfl, stop_refuses ⟨4, 3⟩ nv_stopped ⟨3, .rows 1⟩ rfl⟩
+
 /-- … and it stays that way in every continuation. -/
 theorem stop_refuses_forever (c : Cfg) (s : St) (tr : List Ev) (s' : St) (r : Req)
     (h : s.stopped = true) (hr : run c s tr = some s') : step c s' (.accept r) = none :=
   stop_refuses c s' r (stopped_stable_aux c s tr s' h hr)
 
+/-- Witness continuation: drains `nv_stopped` (flush, exits, Stop returns nil). -/
+private def nv_drain : List Ev :=
+  [.actorRecv 2, .flushTrigger, .enqueued, .workerTake, .flushBegin, .flushDone true, .actorExit, .workerExit, .stopRet true]
+
+/-- non-vacuity: the premises of `stop_refuses_forever` hold for that stopped state and the nine-event
+    continuation that drains it; a new batch is still refused at the end -/
+example : ∃ s', nv_stopped.stopped = true ∧ run ⟨4, 3⟩ nv_stopped nv_drain = some s' ∧
+    s'.answered = [(1, true), (2, true)] ∧ s'.stopReturned = some true ∧
+    step ⟨4, 3⟩ s' (.accept ⟨3, .rows 1⟩) = none :=
+  ⟨(run ⟨4, 3⟩ nv_stopped nv_drain).getD init, rfl, rfl, rfl, rfl,
+   stop_refuses_forever ⟨4, 3⟩ nv_stopped nv_drain _ ⟨3, .rows 1⟩ rfl rfl⟩
+
 /-- Stop returns nil only after every accepted batch has been answered. -/
 theorem stop_nil_means_drained (c : Cfg) (hc : 0 < c.maxRows) (s : St) (hr : Reachable c s)
     (h : s.stopReturned = some true) : ∀ a ∈ s.accepted, a ∈ answeredIds s :=
   graceful_stop_aux c hc s hr h
+
+/-- non-vacuity: the premises of `stop_nil_means_drained` hold for a running engine whose only flush failed
+    (Stop still returns nil; the three batches were answered with an error, nil and a rejection) -/
+example : ∃ s, 0 < (⟨4, 3⟩ : Cfg).maxRows ∧ Reachable ⟨4, 3⟩ s ∧ s.stopReturned = some true ∧
+    s.accepted = [1, 2, 3] ∧ s.answered = [(2, true), (3, false), (1, false)] :=
+  ⟨_, by decide,
+   ⟨[.start, .accept ⟨1, .rows 2⟩, .accept ⟨2, .empty⟩, .accept ⟨3, .bad⟩, .actorRecv 1, .stopBegin, .stopCall,
+     .actorRecv 2, .actorRecv 3, .flushTrigger, .enqueued, .workerTake, .flushBegin, .flushDone false, .actorExit,
+     .workerExit, .stopRet true], rfl⟩, rfl, rfl, rfl⟩
+
+/-- non-vacuity: … and for an engine that was never started: Stop drains the two queued batches with an error -/
+example : ∃ s, 0 < (⟨4, 3⟩ : Cfg).maxRows ∧ Reachable ⟨4, 3⟩ s ∧ s.stopReturned = some true ∧
+    s.accepted = [1, 2] ∧ s.answered = [(1, false), (2, false)] :=
+  ⟨_, by decide,
+   ⟨[.accept ⟨1, .rows 2⟩, .accept ⟨2, .force⟩, .stopBegin, .stopCall, .stopDrain, .stopRet true], rfl⟩, rfl, rfl, rfl⟩
 
 /-- **No work after the deadline error**: in every reachable state where Stop has returned the
     deadline error the flush context is cancelled, and in every continuation no flush request begins
@@ -27,6 +66,17 @@ theorem C08_no_work_after_deadline (c : Cfg) (hc : 0 < c.maxRows) (s : St) (hr :
     (h : s.stopReturned = some false) (tr : List Ev) (s' : St) (hrun : run c s tr = some s') :
     Ev.flushBegin ∉ tr :=
   (no_begin_after_cancel_aux c s tr s' ((reachable_inv_aux c hc s hr).2.2.2.2.2.1 h) hrun).2
+
+/-- non-vacuity: all premises of `C08_no_work_after_deadline` hold together: Stop returned the deadline error
+    while a flush was wedged and a second request queued, and the state has a non-empty continuation `tr`
+    (the wedged flush fails, the queued request is taken and abandoned) -/
+example : ∃ s tr s', 0 < (⟨4, 1⟩ : Cfg).maxRows ∧ Reachable ⟨4, 1⟩ s ∧ s.stopReturned = some false ∧
+    run ⟨4, 1⟩ s tr = some s' ∧ tr = [.flushDone false, .workerTake, .flushAbandon] ∧
+    s'.answered = [(1, false), (2, false)] :=
+  ⟨_, _, _, by decide,
+   ⟨[.start, .accept ⟨1, .rows 1⟩, .actorRecv 1, .flushTrigger, .enqueued, .workerTake, .flushBegin,
+     .accept ⟨2, .rows 1⟩, .actorRecv 2, .flushTrigger, .enqueued, .stopBegin, .stopCall, .deadline, .stopRet false], rfl⟩,
+   rfl, rfl, rfl, rfl⟩
 
 /-- Non-vacuity: a wedged flush, deadline, Stop returns the error; the queued request is abandoned. -/
 example : ∃ s, run ⟨4, 1⟩ init
